@@ -47,12 +47,20 @@ def _resolve_parent_contract(it, fv, args, kwargs):
     it.assumed.append("contract:JSONPointer.resolve_parent == RFC 6901 (proved in contracts/pointer.py)")
     if it.branch(n == 0):
         return S.mk_tuple([S.NONE, it.to_term(data) if dbox is not None else dcontent])
-    last = toks[n - 1]
-    it.assume(key_ok(last))
-    if it.branch(n == 1):
-        pbox = dbox if dbox is not None else new_box(it, dcontent, "DOC")
+    sl = lib.split_last(toks) if not z3.is_app_of(parts, z3.Z3_OP_UNINTERPRETED) else None
+    kind, seq = lib._container_seq(parts)
+    sl = lib.split_last(seq) if kind is not None else None
+    if sl is not None:
+        prefix_seq, last = sl
     else:
-        prefix = z3.Extract(toks, 0, n - 1)
+        prefix_seq, last = z3.simplify(z3.Extract(toks, 0, n - 1)), z3.simplify(toks[n - 1])
+    it.assume(key_ok(last))
+    if it.branch(z3.Length(prefix_seq) == 0):
+        pbox = dbox if dbox is not None else new_box(it, dcontent, "DOC")
+        if getattr(it, "parent_is_array", False):
+            it.assume(Py.is_list(pbox.fields["v"]))
+    else:
+        prefix = prefix_seq
         which = parent_exc(prefix, dcontent)
         it.assume(z3.And(which >= 0, which <= 3))
         for k, cls in enumerate((exc.JSONPointerKeyError, exc.JSONPointerIndexError, exc.JSONPointerTypeError)):
@@ -60,6 +68,8 @@ def _resolve_parent_contract(it, fv, args, kwargs):
                 raise PyRaise(lib.ExcVal(cls, [S.mk_str("raised while locating the parent")]))
         content = parent_of(prefix, dcontent)
         it.assume(S.json_value(content))
+        if getattr(it, "parent_is_array", False):
+            it.assume(Py.is_list(content))
         it.assume(S.py_len(content) <= ptr.JSONPointer.max_int_index)
         boxes = getattr(it, "parent_boxes", {})
         key = z3.simplify(prefix).sexpr()
@@ -92,19 +102,50 @@ def observe(it, data_box, result):
     return S.mk_tuple([rv, data_box.fields["v"]] + finals)
 
 
-def doc_inputs(ctx, prefix=""):
-    ps = ctx.seq(prefix + "parts")
+TOKEN_CLASSES = {
+    "int": lambda t: Py.is_int(t),
+    "dash": lambda t: t == S.mk_str("-"),
+    "name": lambda t: z3.And(Py.is_str(t), z3.Not(z3.InRe(Py.s(t), lib.RE_PYINT)), Py.s(t) != z3.StringVal("-")),
+    "digits": lambda t: z3.And(Py.is_str(t), z3.InRe(Py.s(t), lib.RE_PYINT)),
+}
+
+
+def doc_inputs(ctx, prefix="", nonempty=True, token_class=None):
+    """A pointer's tokens as `prefix ++ (last,)` (the empty pointer is a separate, trivial case):
+    keeping the last token a plain input keeps string reasoning out of the sequence theory."""
     data = ctx.json("data") if "data" not in ctx.inputs else ctx.inputs["data"]
     ctx.require(z3.Not(Py.is_str(data)), S.py_len(data) <= ptr.JSONPointer.max_int_index)
+    if not nonempty:
+        ctx.inputs[prefix + "parts"] = S.mk_list([])
+        return S.EmptySeq, data
+    pre = ctx.seq(prefix + "prefix")
+    last = ctx.val(prefix + "last")
+    ctx.require(key_ok(last))
+    if token_class is not None:
+        ctx.require(TOKEN_CLASSES[token_class](last))
+    ps = z3.Concat(pre, z3.Unit(last))
+    ctx.inputs[prefix + "parts"] = Py.list(ps)
     return ps, data
 
 
 def _register_value_op(clsname, specname, props, has_value=True):
     cls = getattr(pm, clsname)
 
-    @contract(f"{clsname}.apply==RFC6902", props, [J + f"{clsname}.apply"], replay=("patch_op_replay", [clsname]))
-    def _c(ctx, cls=cls, specname=specname, has_value=has_value):
-        ps, data = doc_inputs(ctx)
+    _register_value_op_case(clsname, cls, specname, props, has_value, False, None)
+    for tc in TOKEN_CLASSES:
+        _register_value_op_case(clsname, cls, specname, props, has_value, True, tc)
+
+
+def _register_value_op_case(clsname, cls, specname, props, has_value, nonempty, tc):
+    @contract(
+        f"{clsname}.apply==RFC6902" + (f"[{tc}]" if nonempty else "[root]"),
+        props,
+        [J + f"{clsname}.apply"],
+        replay=("patch_op_replay", [clsname]),
+        tier="thorough" if tc == "digits" else "quick",  # integer-looking *string* tokens: 3 min of regex reasoning
+    )
+    def _c(ctx, cls=cls, specname=specname, has_value=has_value, nonempty=nonempty, tc=tc):
+        ps, data = doc_inputs(ctx, nonempty=nonempty, token_class=tc)
         value = ctx.json("value") if has_value else None
 
         def code(it):
@@ -129,3 +170,49 @@ _register_value_op("OpAdd", "op_add", ("C05", "C15"))
 _register_value_op("OpRemove", "op_remove", ("C05", "C20"), has_value=False)
 _register_value_op("OpReplace", "op_replace", ("C05", "C20"))
 _register_value_op("OpTest", "op_test", ("C05", "C20"))
+
+
+# ------------------------------------------------------------------ move / copy: source and destination in the same container
+
+def _register_move_copy(clsname, specname, src_class, dst_class):
+    cls = getattr(pm, clsname)
+
+    @contract(
+        f"{clsname}.apply==RFC6902[{src_class}->{dst_class}]",
+        ("C05",),
+        [J + f"{clsname}.apply", J + "OpAdd.apply", "jsonpath.pointer:JSONPointer.is_relative_to"],
+        replay=("patch_move_copy_replay", [clsname]),
+    )
+    def _c(ctx, cls=cls, specname=specname):
+        data = ctx.json("data")
+        ctx.require(z3.Not(Py.is_str(data)), S.py_len(data) <= ptr.JSONPointer.max_int_index)
+        pre = ctx.seq("prefix")
+        src_last, dst_last = ctx.val("src_last"), ctx.val("dst_last")
+        ctx.require(key_ok(src_last), key_ok(dst_last), TOKEN_CLASSES[src_class](src_last), TOKEN_CLASSES[dst_class](dst_last))
+        src = Py.tuple(z3.Concat(pre, z3.Unit(src_last)))
+        dst = Py.tuple(z3.Concat(pre, z3.Unit(dst_last)))
+        ctx.inputs["src_parts"], ctx.inputs["dst_parts"] = src, dst
+
+        def code(it):
+            # arrays only: two lookups in one object after an update are beyond the dict_find model
+            # (the object cases are covered bounded, monitors/c05.py)
+            it.parent_is_array = True
+            dbox = new_box(it, data, "DOC")
+            op = it.alloc(cls, {"source": pointer_obj(it, src), "dest": pointer_obj(it, dst)}, origin="PATCH")
+            return observe(it, dbox, it.call_method(op, "apply", [dbox]))
+
+        def spec(it):
+            it.parent_is_array = True
+            dbox = new_box(it, data, "DOC")
+            return observe(it, dbox, it.run_function(spec_fn(jspec, specname), [pointer_obj(it, src), pointer_obj(it, dst), dbox], {}))
+
+        ctx.equiv(f"{cls.__name__}.apply", code, spec)
+
+
+for _cn, _sn in (("OpMove", "op_move"), ("OpCopy", "op_copy")):
+    for _sc in ("int",):
+        for _dc in ("int", "dash"):
+            _register_move_copy(_cn, _sn, _sc, _dc)
+
+_register_value_op("OpAddNe", "op_addne", ("C15",))
+_register_value_op("OpAddAp", "op_addap", ("C15",))
